@@ -16,6 +16,7 @@ ARGV = [b"", b"x", b"a.b", b"a.b.c", b"/", b"/a", b"/a/", b"/a/b", b"com.example
 DEFAULT_WEIGHTS = {
     "connect": 4, "hello": 6, "close": 2, "request": 14, "release": 7, "query": 6, "addmatch": 8, "removematch": 4,
     "signal": 12, "call": 12, "reply": 8, "driver_edge": 5, "forged": 6, "garbage": 1, "badtype": 2, "nodest": 2, "sleep": 0, "monitor": 0,
+    "hostile": 0, "preauth": 0,
 }
 
 
@@ -138,6 +139,13 @@ class Gen:
             return
         if k == "sleep":
             self.ops.append(("sleep",)); self.count("sleep"); self.calls = []
+            return
+        if k == "preauth":
+            self.do_preauth(); return
+        if k == "hostile":
+            cands = [c for c in self.open if c != 0]
+            if cands:
+                self.do_hostile(self.r.choice(cands))
             return
         if k == "hello":
             cid = self.some_conn(active=False) if self.r.random() < 0.7 else self.some_conn()
@@ -305,6 +313,142 @@ class Gen:
             # the model decides whether this was invalid; if it was, the connection is gone
             self.maybe_dead = cid
 
+    # ---- hostile clients (C10)
+    def template(self, cid):
+        """a valid message of the kind ordinary traffic consists of"""
+        r = self.r
+        x = r.random()
+        s = self.serial(cid)
+        if x < 0.3:
+            return method_call(s, BUS, BUS_PATH, BUS, r.choice(["ListNames", "GetId", "Hello"]))
+        if x < 0.45:
+            return method_call(s, BUS, BUS_PATH, BUS, "RequestName", "su", [r.choice(self.names), r.choice([0, 1, 2, 4])])
+        if x < 0.55:
+            return method_call(s, BUS, BUS_PATH, BUS, "AddMatch", "s", [self.gen_rule()])
+        if x < 0.75:
+            sig, vals = self.body()
+            return signal_msg(s, r.choice(PATHS).decode(), r.choice(IFACES).decode(), r.choice(MEMBERS).decode(), sig, vals)
+        if x < 0.9:
+            sig, vals = self.body()
+            return method_call(s, self.some_dest().decode(), r.choice(PATHS).decode(), r.choice(IFACES).decode(), "M", sig, vals)
+        return reply_msg(s, r.randint(1, 9), self.some_dest().decode(), error=r.choice([None, "a.E"]))
+
+    def mutate(self, m):
+        """one invalid (or oddly shaped) variant of a valid message, as bytes"""
+        r = self.r
+        x = r.random()
+        if x < 0.12:
+            # exactly one header field removed, everything else as in valid traffic
+            f = list(m.fields)
+            if f:
+                del f[r.randrange(len(f))]
+            m.fields = f
+            return m.marshal()
+        if x < 0.3:
+            # structural: fields dropped, duplicated, retyped, unknown, with invalid values
+            f = list(m.fields)
+            y = r.random()
+            if y < 0.35 and f:
+                req = [i for i, x in enumerate(f) if x[0] in (1, 2, 3, 4, 5)]
+                del f[r.choice(req) if req and r.random() < 0.8 else r.randrange(len(f))]
+            elif y < 0.5 and f:
+                f.append(r.choice(f))
+            elif y < 0.65 and f:
+                i = r.randrange(len(f)); c, t, v = f[i]
+                f[i] = (c, r.choice([('b', 's'), ('b', 'o'), ('b', 'u'), ('b', 'g')]), v if not isinstance(v, int) else b"x")
+                if f[i][1] == ('b', 'u'): f[i] = (c, ('b', 'u'), 7)
+            elif y < 0.8:
+                f.append((r.choice([0, 10, 11, 200]), ('b', 's'), b"x"))
+            else:
+                i = r.randrange(len(f)) if f else 0
+                if f:
+                    c, t, v = f[i]
+                    f[i] = (c, t, r.choice([b"", b"bad name", b"//", b"a..b", b"\xff", b"x" * 300]) if not isinstance(v, int) else 0)
+            m.fields = f
+            if r.random() < 0.2: m.mtype = r.choice([0, 5, 255])
+            if r.random() < 0.1: m.flags = r.choice([0x80, 0xff])
+            try:
+                return m.marshal()
+            except Exception:
+                return b"l\x01\x00\x01" + bytes(12)
+        data = bytearray(m.marshal())
+        if x < 0.5:
+            # length words and fixed header at limit values
+            off = r.choice([4, 12, 8, 0, 1, 2, 3])
+            if off in (4, 12, 8):
+                cur = int.from_bytes(data[off:off + 4], "little")
+                v = r.choice([0, 1, 7, cur + 1, max(0, cur - 1), cur + 8, 0x7fffffff, 0xffffffff, 1 << 27, (1 << 27) + 1, 1 << 26, (1 << 26) + 1, 0x80000000])
+                data[off:off + 4] = (v & 0xffffffff).to_bytes(4, "little")
+            else:
+                data[off] = r.choice([0, 1, 2, 4, 5, ord("B"), ord("l"), 0xff])
+            return bytes(data)
+        if x < 0.7:
+            for _ in range(r.choice([1, 1, 2, 8])):
+                i = r.randrange(len(data)); data[i] ^= 1 << r.randrange(8)
+            return bytes(data)
+        if x < 0.85:
+            return bytes(data[:r.randrange(1, len(data))])        # left half-sent
+        return bytes(r.getrandbits(8) for _ in range(r.choice([1, 3, 16, 17, 64, 500])))
+
+    def do_hostile(self, cid):
+        r = self.r
+        x = r.random()
+        self.count("hostile")
+        good = lambda: self.template(cid).marshal()
+        if x < 0.4:
+            data = self.mutate(self.template(cid)); kind = "mutated"
+        elif x < 0.55:
+            data = good() + self.mutate(self.template(cid)) + good(); kind = "valid+mutated+valid"
+        elif x < 0.65:
+            n = r.choice([50, 200, 600])
+            m = r.choice([lambda: method_call(self.serial(cid), BUS, BUS_PATH, BUS, "GetId"),
+                          lambda: signal_msg(self.serial(cid), "/a", "a.b", "M", "s", [b"x" * r.choice([1, 100])]),
+                          lambda: method_call(self.serial(cid), BUS, BUS_PATH, BUS, "AddMatch", "s", [self.gen_rule()])])
+            data = b"".join(m().marshal() for _ in range(n)); kind = "flood"
+            self.count("hostile:flood"); self.ops.append(("raw", cid, data, True)); return
+        elif x < 0.8:
+            whole = good()
+            cut = r.randrange(1, len(whole))
+            self.ops.append(("raw", cid, whole[:cut])); self.count("hostile:split")
+            for _ in range(r.choice([0, 1, 3])):
+                self.step()
+            if cid in self.open:
+                self.ops.append(("raw", cid, whole[cut:]))
+            return
+        elif x < 0.9:
+            data = good() + good() + good(); kind = "valid x3 in one write"
+            self.count("hostile:" + kind); self.ops.append(("raw", cid, data, True)); return
+        else:
+            data = b""; kind = "empty"
+            data = bytes(r.getrandbits(8) for _ in range(r.choice([1, 15, 16, 33])))
+        self.count("hostile:" + kind)
+        self.ops.append(("raw", cid, data))
+        if r.random() < 0.25 and cid in self.open:
+            self.ops.append(("close", cid)); del self.open[cid]; self.count("close")      # abrupt close after any prefix
+        elif kind in ("mutated", "valid+mutated+valid", "empty") and cid in self.open:
+            del self.open[cid]      # most probably dropped by the bus by now: not used again (it is left open, silent)
+
+    def do_preauth(self):
+        r = self.r
+        self.count("preauth")
+        pre = getattr(self, "pre", {})
+        self.pre = pre
+        if pre and r.random() < 0.4:
+            k = r.choice(list(pre))
+        else:
+            if len(pre) >= 8:
+                k = r.choice(list(pre)); self.ops.append(("preauth", k, b"", True)); del pre[k]
+            k = getattr(self, "next_pre", 0); self.next_pre = k + 1
+            pre[k] = True
+        data = r.choice([b"", b"\0", b"\0AUTH\r\n", b"\0AUTH EXTERN", b"AUTH EXTERNAL 30\r\n", b"\0AUTH EXTERNAL 30\r\n", b"\0AUTH EXTERNAL 30\r\nBEGIN\r\n",
+                         b"\0AUTH EXTERNAL 30\r\nBEGIN\r\ngarbage after begin", b"\0" + b"AUTH\r\n" * 7, b"\0" + b"X" * 20000, b"\0AUTH \n\r\n",
+                         b"\0AUTH ANONYMOUS\r\nBEGIN\r\n", b"\0" + bytes(r.getrandbits(8) for _ in range(40)), b"\0DATA\r\nCANCEL\r\nERROR\r\n",
+                         b"\0AUTH DBUS_COOKIE_SHA1 30\r\n", b"\0AUTH EXTERNAL 30\r\nNEGOTIATE_UNIX_FD\r\nBEGIN\r\nl\x01\x00\x01\xff\xff\xff\xff"])
+        close = r.random() < 0.35
+        self.ops.append(("preauth", k, data, close))
+        if close:
+            pre.pop(k, None)
+
     def gen_rule(self):
         x = self.r.random()
         if x < 0.25 and self.rule_uniques:
@@ -331,6 +475,8 @@ class Gen:
 
 
 def history(rng, n_ops, **kw):
+    if "script" in kw:
+        return list(kw["script"][rng.randrange(len(kw["script"]))] if kw.get("pick") else kw["script"]), {"scripted": 1}
     g = Gen(rng, **kw)
     g.start()
     while len(g.ops) < n_ops:
